@@ -207,6 +207,10 @@ def _charlit(s):
 
 
 def reg(n, st=PLAIN):
+    if isinstance(n, (tuple, list)):
+        # a computed register number: %sym or %<expr>
+        t = expr(tuple(n), st)
+        return "%" + t if n[0] in ("sym", "num") and not t.startswith("-") else "%<" + t + ">"
     c = st.pick("reg-percent", 3)
     if c == 1:
         return "%" + str(n)
